@@ -193,8 +193,18 @@ where
             prettify(dataset, &mut self.write, &self.config, "").map_err(SinkError)?;
         } else {
             let mut tf = TurtleFormatter::new(&mut self.write);
-            rio_format_triples(&mut tf, source)?;
-            tf.finish().map_err(SinkError)?;
+            match rio_format_triples(&mut tf, source) {
+                Ok(()) => {
+                    tf.finish().map_err(SinkError)?;
+                }
+                Err(SourceError(e)) => {
+                    // the triples received so far have been consumed:
+                    // terminate their last statement before reporting the source error
+                    let _ = tf.finish();
+                    return Err(SourceError(e));
+                }
+                Err(e) => return Err(e),
+            }
         }
         Ok(self)
     }
